@@ -17,7 +17,8 @@ Classification table (the trusted part; validated at run time by read-only argum
            callers; when some caller writes through such a result in place (SSPOR.fit shuffles the tail of the ranking) the
            field counts as written wherever it is assigned, so it must never alias a protected root
   write  : x[...] = v, x[...] op= v, x op= v, mutating methods (MUTATORS), a call to a package function whose summary
-           says it writes that parameter
+           says it writes that parameter, a call given an in-place permission (overwrite_a / overwrite_b / … = True, directly
+           or through a keyword dictionary the function itself filled) writes through the corresponding positional argument
 Protected roots of a function: its parameters (except self/cls and documented in/out parameters) and the fields in
 PROTECTED_FIELDS (stored basis, cost vector, region lists).
 """
@@ -85,6 +86,7 @@ class Builder:
         self.fn = fn
         self.summaries = summaries        # simple name -> [(params, written params, returned params, returned fields)]
         self.ext_written = ext_written    # fields whose arrays are written in place by callers of the method returning them
+        self.ow = {}                      # dict variable -> overwrite flags stored into it by this function
         self.tmp = 0
         name = fn.node.name
         in_out = IN_OUT.get(name, set())
@@ -237,11 +239,38 @@ class Builder:
         return out
 
     # ---- statements -------------------------------------------------------------------
+    OVERWRITE_KW = {"overwrite_a": 0, "overwrite_b": 1, "overwrite_x": 0, "overwrite_input": 0, "overwrite_data": 0}
+
+    def note_overwrite_flags(self, c):
+        """LAPACK-style in-place permissions: `f(a, b, overwrite_b=True)` lets the callee write into its argument; the flag may
+        also travel in a keyword dictionary (`kw.setdefault("overwrite_b", True)`, `kw["overwrite_b"] = True`, `f(a, b, **kw)`).
+        Flags that arrive from the caller (a `**kwargs` parameter passed on untouched) are the caller's own decision."""
+        f = c.func
+        if isinstance(f, ast.Attribute) and f.attr in ("setdefault", "update") and isinstance(f.value, ast.Name):
+            if f.attr == "setdefault" and len(c.args) == 2 and isinstance(c.args[0], ast.Constant) and c.args[0].value in self.OVERWRITE_KW \
+                    and not (isinstance(c.args[1], ast.Constant) and c.args[1].value is False):
+                self.ow.setdefault(f.value.id, set()).add(c.args[0].value)
+            if f.attr == "update":
+                for k in c.keywords:
+                    if k.arg in self.OVERWRITE_KW and not (isinstance(k.value, ast.Constant) and k.value.value is False):
+                        self.ow.setdefault(f.value.id, set()).add(k.arg)
+        flags = set()
+        for k in c.keywords:
+            if k.arg in self.OVERWRITE_KW and not (isinstance(k.value, ast.Constant) and k.value.value is False):
+                flags.add(k.arg)
+            elif k.arg is None and isinstance(k.value, ast.Name):
+                flags |= self.ow.get(k.value.id, set())
+        for fl in flags:
+            pos = self.OVERWRITE_KW[fl]
+            if pos < len(c.args):
+                self.write_through(c.args[pos])
+
     def note_calls(self, node):
         """side effects of every call inside `node`: mutating methods and package functions with write summaries"""
         for c in ast.walk(node):
             if not isinstance(c, ast.Call):
                 continue
+            self.note_overwrite_flags(c)
             f = c.func
             if isinstance(f, ast.Attribute):
                 m = f.attr
@@ -302,6 +331,8 @@ class Builder:
         elif isinstance(t, ast.Starred):
             self.assign_target(t.value, value_srcs)
         elif isinstance(t, ast.Subscript):
+            if isinstance(t.value, ast.Name) and isinstance(t.slice, ast.Constant) and t.slice.value in self.OVERWRITE_KW:
+                self.ow.setdefault(t.value.id, set()).add(t.slice.value)
             b = self.base_var(t.value)
             if b is not None:
                 self.fn.stmts.append(("write", b))
